@@ -49,6 +49,7 @@ def S():
     d = dict(delay=delay, promise=promise, futures=futures)
     for n in ("deref", "realized?", "deliver", "force", "future-call", "future-done?"):
         d[n] = boot.core(n)
+    d["future-macro"] = boot.Session().eval("(fn* [body] (future (body)))")
     _S.update(d)
     return _S
 
@@ -242,11 +243,53 @@ def check_promise(rec, cfg, choices):
 
 # ---- future (real threads, gates) -------------------------------------------------------------
 
+FUT_VALUES = ["int", "nil", "false", "vector", "exc-object", "timeout-kw"]
+FUT_RAISES = ["Boom", "ValueError", "TimeoutError", "KeyError", "ex-info", "StopIteration"]
+
+
+def _fut_outcome(s, outcome):
+    """-> (thunk executed by the body after the gate opens, expected ('ok', v) | ('raise', class name))"""
+    kind, name = outcome
+    if kind == "value":
+        v = {"int": 77, "nil": None, "false": False, "vector": boot.core("vector")(1, None, 2),
+             "exc-object": ValueError("returned, not raised"), "timeout-kw": "TIMEOUT"}[name]
+        return (lambda: v), ("ok", v)
+    if name == "ex-info":
+        exc = boot.core("ex-info")("boom", boot.core("hash-map")("k", 1))
+    else:
+        exc = {"Boom": Boom, "ValueError": ValueError, "TimeoutError": TimeoutError, "KeyError": KeyError,
+               "StopIteration": StopIteration}[name]("raised by the body")
+
+    def thunk():
+        raise exc
+    return thunk, ("raise", exc)
+
+
+def _fut_obs(f):
+    try:
+        return ("ok", f())
+    except BaseException as e:  # noqa - the observation *is* the exception
+        return ("raise", e)
+
+
+def _fut_same(obs, want):
+    if obs[0] != want[0]:
+        return False
+    return obs[1] is want[1] if (want[0] == "raise" or isinstance(want[1], BaseException)) else (obs[1] == want[1] and type(obs[1]) is type(want[1]))
+
+
 def check_future(rec, cfg):
-    """cfg: {"outcome": "value"|"throw", "derefs_before": n, "derefs_after": n}"""
+    """cfg: {"outcome": "value"|"throw"|[kind, name], "derefs_before": n, "derefs_after": n, "via": "call"|"macro",
+    "timed_after": bool, "poll": bool}: one future whose body blocks on a gate; derefs (plain and timed) before and
+    after completion; realized?/future-done? sampled by a poller thread through the whole life of the future."""
     s = S()
     case = {"kind": "future", "config": cfg}
-    rec.case(canon(["future", cfg]), nontrivial=cfg["derefs_before"] > 0, cls="future", sample=cfg, sub="future")
+    outcome = cfg["outcome"]
+    if isinstance(outcome, str):
+        outcome = ["value", "int"] if outcome == "value" else ["throw", "Boom"]
+    rec.case(canon(["future", cfg]), nontrivial=cfg["derefs_before"] > 0 or outcome[1] not in ("int", "Boom"), cls="future/" + outcome[0] + "/" + cfg.get("via", "call"),
+             sample=cfg, sub="future")
+    thunk, want = _fut_outcome(s, outcome)
     gate = threading.Event()
     started = threading.Event()
     runs = {"n": 0}
@@ -256,56 +299,77 @@ def check_future(rec, cfg):
         started.set()
         if not gate.wait(60):
             runs["gate_timed_out"] = True       # harness starved: the case says nothing
-        if cfg["outcome"] == "throw":
-            raise Boom()
-        return 77
+        return thunk()
 
-    fut = s["future-call"](body)
-    started.wait(20)
+    if cfg.get("via") == "macro":
+        fut = s["future-macro"](body)
+    else:
+        fut = s["future-call"](body)
+    if not started.wait(30):
+        rec.inconclusive += 1
+        gate.set()
+        return
     samples = [bool(s["realized?"](fut)), bool(s["future-done?"](fut))]
     if any(samples):
+        gate.set()
         raise Violation("future-realized-before-body-finished", case, f"{samples}")
+    polled = []
+    stop_poll = threading.Event()
+
+    def poller():
+        while not stop_poll.is_set():
+            polled.append((bool(s["realized?"](fut)), bool(s["future-done?"](fut))))
+            stop_poll.wait(0.001)
+
+    pt = threading.Thread(target=poller)
+    if cfg.get("poll"):
+        pt.start()
     early = []
-
-    def early_deref(k):
-        try:
-            early.append(("ok", s["deref"](fut)))
-        except Boom:
-            early.append(("raise", "Boom"))
-        except Exception as e:  # noqa
-            early.append(("raise", type(e).__name__))
-
-    ths = [threading.Thread(target=early_deref, args=(k,)) for k in range(cfg["derefs_before"])]
+    ths = [threading.Thread(target=lambda: early.append(_fut_obs(lambda: s["deref"](fut)))) for _ in range(cfg["derefs_before"])]
     for t in ths:
         t.start()
-    timed = s["deref"](fut, 1, "TIMEOUT")
+    timed = _fut_obs(lambda: s["deref"](fut, 1, "TIMEOUT"))
     if runs.get("gate_timed_out"):
         rec.inconclusive += 1
+        stop_poll.set()
         return
-    if timed != "TIMEOUT":
+    if timed != ("ok", "TIMEOUT"):
+        gate.set()
+        stop_poll.set()
         raise Violation("future-timed-deref-returned-before-body-finished", case, f"{timed!r}")
     gate.set()
     for t in ths:
-        t.join(20)
+        t.join(30)
     if any(t.is_alive() for t in ths):
         rec.inconclusive += 1
+        stop_poll.set()
         return
-    late = []
-    for _ in range(cfg["derefs_after"]):
-        try:
-            late.append(("ok", s["deref"](fut)))
-        except Boom:
-            late.append(("raise", "Boom"))
-        except Exception as e:  # noqa
-            late.append(("raise", type(e).__name__))
-    want = ("ok", 77) if cfg["outcome"] == "value" else ("raise", "Boom")
-    bad = [r for r in early + late if r != want]
+    late = [_fut_obs(lambda: s["deref"](fut)) for _ in range(cfg["derefs_after"])]
+    if cfg.get("timed_after"):
+        # the body has finished: a timed deref must give its outcome, never the time-out value
+        late.append(_fut_obs(lambda: s["deref"](fut, 5000, "TIMEOUT-AFTER")))
+    stop_poll.set()
+    if cfg.get("poll"):
+        pt.join(10)
+    bad = [r for r in early + late if not _fut_same(r, want)]
     if bad:
-        raise Violation("future-deref-differs-from-body-outcome", case, f"expected {want}; got {early + late}")
+        raise Violation("future-deref-differs-from-body-outcome", case, f"expected {want!r}; got {early + late!r}")
     if runs["n"] != 1:
         raise Violation("future-body-ran-more-than-once", case, f"{runs['n']} runs")
     if not s["realized?"](fut) or not s["future-done?"](fut):
         raise Violation("future-not-realized-after-completion", case, "")
+    for col in (0, 1):
+        seen = False
+        for smp in polled:
+            if seen and not smp[col]:
+                raise Violation("future-realized-not-monotone", case, f"column {col}: {polled[:50]}")
+            seen = seen or smp[col]
+
+
+def future_cfgs():
+    outcome = st.one_of(st.tuples(st.just("value"), st.sampled_from(FUT_VALUES)), st.tuples(st.just("throw"), st.sampled_from(FUT_RAISES))).map(list)
+    return st.fixed_dictionaries({"outcome": outcome, "derefs_before": st.integers(0, 3), "derefs_after": st.integers(1, 2),
+                                  "via": st.sampled_from(["call", "macro"]), "timed_after": st.booleans(), "poll": st.booleans()})
 
 
 # ---- generators ------------------------------------------------------------------------------
@@ -372,12 +436,15 @@ def shard(i, n, tier, seed, findings):
     hyp.drive(lambda c: check_promise(rec, c[0], c[1]), st.tuples(promise_cfgs(), choice_lists()), rec=rec, findings=findings, seed=seed * 1000 + i + 3,
               max_examples=ex, to_case=lambda c: {"kind": "promise", "config": c[0], "choices": c[1]})
     k = 0
-    for outcome in ("value", "throw"):
-        for before in (0, 1, 3):
-            for after in (1, 2):
+    for outcome in [["value", v] for v in FUT_VALUES] + [["throw", c] for c in FUT_RAISES]:
+        for before in (0, 2):
+            for via in ("call", "macro"):
                 k += 1
                 if k % n == i:
-                    guard(check_future, {"outcome": outcome, "derefs_before": before, "derefs_after": after})
+                    guard(check_future, {"outcome": outcome, "derefs_before": before, "derefs_after": 1, "via": via, "timed_after": True, "poll": True})
+    rec.exhaustive["future-outcomes-x-via-x-early-derefs"] = True
+    hyp.drive(lambda c: check_future(rec, c), future_cfgs(), rec=rec, findings=findings, seed=seed * 1000 + i + 7,
+              max_examples=4 if tier == "quick" else 60, to_case=lambda c: {"kind": "future", "config": c})
     return rec
 
 
